@@ -323,7 +323,7 @@ def run(ctx):
     st = {'cases': [], 'impls': []}
     for label, old, new in CORPUS:
         one_pair(ctx, st, {'sections': old}, label, new, 'c')
-    for i in range(ctx.n(12, 200)):
+    for i in range(ctx.n(12, 140)):
         cfg = L.gen_config(rng, ctx.scratch, small=True)
         cfg['include'] = []
         for label, newsecs in mutations(rng, cfg, everything=(i % 8 == 0)):
